@@ -179,7 +179,7 @@ def run_impl(case):
             lines.append(f"leaf bridge {s_} " + " ".join(csr_tokens(ld[1])))
     lines += ["routeall", "end"]
     obs = ["route " + " ".join("-" if o is None else f"{rid[id(o.resource)]}:{a - o.start}" for a, o in enumerate(owner))]
-    sim = Simulator(h.top)
+    sim = simutil.simulator(h.top, case)
     sim.add_clock(1e-6)
     fails = []
     stats = {"addresses": naddr, "assigned": sum(o is not None for o in owner), "registers": len(regs), "srams": len(h.srams),
